@@ -27,18 +27,18 @@ fn corpus_run(rep: &mut Report, mode: &str, tier: &str, seed: u64, fl: &Flags, q
 // ------------------------------------------------------------------------------------------------ C02 / C10
 pub fn c02(tier: &str, seed: u64) -> Report {
     let mut rep = Report::new("c02", "grammar-generated messages (0..4 attributes from 12 types + random types, 26 tail patterns of integrity/fingerprint/ordinary attributes, correct and wrong MACs/CRCs) and 3 mutants each (bit flip, length field +-, truncation, extension, byte substitution); non-trivial = buffer of >= 20 bytes or accepted by the reference; distinct by content hash. Real parser vs independent reference decoder: acceptance, cause, fields, exposed stream, first-match lookups, typed lookups.");
-    corpus_run(&mut rep, "c02", tier, seed, &Flags { c01: false, c02: true, c04: false, c10: true, c16: false }, 1500, 60000);
+    corpus_run(&mut rep, "c02", tier, seed, &Flags { c01: false, c02: true, c04: false, c10: true, c16: false }, 8000, 120000);
     exhaustive_skeletons(&mut rep, "c02", tier, &Flags { c01: false, c02: true, c04: false, c10: true, c16: false });
     rep
 }
 pub fn c10(tier: &str, seed: u64) -> Report {
     let mut rep = Report::new("c10", "all orders and subsets of {MI, MI-SHA256, FINGERPRINT, ordinary} at the tail (exhaustive skeletons up to 4 attributes) plus grammar-generated messages; iteration and lookups vs the exposure rule of the statement; prefix-stability under replacement of the bytes after the first integrity attribute.");
     exhaustive_skeletons(&mut rep, "c10", tier, &Flags { c01: false, c02: false, c04: true, c10: true, c16: false });
-    corpus_run(&mut rep, "c10", tier, seed, &Flags { c01: false, c02: false, c04: false, c10: true, c16: false }, 600, 20000);
+    corpus_run(&mut rep, "c10", tier, seed, &Flags { c01: false, c02: false, c04: false, c10: true, c16: false }, 3000, 40000);
     // prefix stability: replace everything after the first integrity attribute by another accepted tail
     let mut rng = Rng::new(seed ^ 0x10);
     let key = key_short("pass");
-    for _ in 0..n_cases(tier, 200, 5000) {
+    for _ in 0..n_cases(tier, 1000, 10000) {
         let mut m = refmsg::encode(0, 1, rng.next() as u128, &[(0x8022, b"abc".to_vec()), (0x0024, rng.bytes(4))]);
         let first_sha256 = rng.coin();
         refmsg::add_integrity(&mut m, &key, first_sha256, 32);
@@ -69,7 +69,7 @@ pub fn exhaustive_skeletons(rep: &mut Report, mode: &str, tier: &str, fl: &Flags
     let creds = creds_short("pass");
     let k = if tier == "thorough" { 5 } else { 4 };
     let mut rng = Rng::new(7);
-    let alphabet = ['o', 'u', 'm', 's', 'f'];
+    let alphabet = ['o', 'u', 'm', 's', 'f', 'z'];
     let mut idx = vec![0usize; 0];
     loop {
         // build the message for idx
@@ -78,6 +78,7 @@ pub fn exhaustive_skeletons(rep: &mut Report, mode: &str, tier: &str, fl: &Flags
             match alphabet[i] {
                 'o' => append_attr(&mut msg, 0x8022, &b"sw"[..(p % 3).min(2)]),
                 'u' => append_attr(&mut msg, 0x7777, &[1, 2, 3, 4, 5][..p % 5]),
+                'z' => append_attr(&mut msg, 0x0000, &[6, 7][..p % 3 % 2 + (p % 2)]),
                 'm' => refmsg::add_integrity(&mut msg, &key, false, 20),
                 's' => refmsg::add_integrity(&mut msg, &key, true, [32, 16, 24][p % 3]),
                 _ => refmsg::add_fingerprint(&mut msg),
@@ -93,14 +94,14 @@ pub fn exhaustive_skeletons(rep: &mut Report, mode: &str, tier: &str, fl: &Flags
         }
         if idx.len() > k { break; }
     }
-    rep.notes.push(format!("exhaustive attribute skeletons over {{ordinary, unknown, MI, MI-SHA256, FINGERPRINT}} up to {} attributes", k));
+    rep.notes.push(format!("exhaustive attribute skeletons over {{ordinary, unknown, MI, MI-SHA256, FINGERPRINT, type 0x0000}} up to {} attributes", k));
 }
 
 // ------------------------------------------------------------------------------------------------ C01
 pub fn c01(tier: &str, seed: u64) -> Report {
     let mut rep = Report::new("c01", "decoding entry points and read-only operations under catch_unwind and a watchdog: grammar-generated + mutated messages, all 19 typed decoders on random raw attributes (lengths 0..=800), 0..=3-byte slices into every decoder, 64 KiB-boundary messages; once more with a TRACE tracing subscriber installed.");
     let fl = Flags { c01: true, c02: false, c04: true, c10: false, c16: false };
-    corpus_run(&mut rep, "c01", tier, seed, &fl, 800, 30000);
+    corpus_run(&mut rep, "c01", tier, seed, &fl, 4000, 60000);
     typed_decoders_no_panic(&mut rep, tier, seed);
     boundary_messages(&mut rep);
     // with a tracing subscriber at TRACE: argument expressions of the tracing macros are evaluated
@@ -111,7 +112,7 @@ pub fn c01(tier: &str, seed: u64) -> Report {
         let key = key_short("pass");
         let creds = creds_short("pass");
         // with_timeout runs on another thread (no subscriber there): run these cases inline under catch()
-        for _ in 0..n_cases(tier, 300, 5000) {
+        for _ in 0..n_cases(tier, 1000, 10000) {
             let m0 = gen_message(&mut rng, &key);
             let m = if rng.coin() { mutate(&mut rng, &m0) } else { m0 };
             let mm = m.clone();
@@ -138,7 +139,7 @@ macro_rules! all_typed { ($mac:ident) => { $mac!(Username); $mac!(Realm); $mac!(
 fn typed_decoders_no_panic(rep: &mut Report, tier: &str, seed: u64) {
     let mut rng = Rng::new(seed ^ 0x19);
     let types: [u16; 19] = [0x0006, 0x0014, 0x0015, 0x8022, 0x8003, 0x0009, 0x000a, 0x8002, 0x001c, 0x0024, 0x0025, 0x8029, 0x802a, 0x8028, 0x0008, 0x001e, 0x0020, 0x8023, 0x001d];
-    for i in 0..n_cases(tier, 3000, 100000) {
+    for i in 0..n_cases(tier, 10000, 200000) {
         let ty = if rng.below(6) == 0 { rng.next() as u16 } else { *rng.pick(&types) };
         let n = match rng.below(6) { 0 => rng.below(4), 1 => rng.range(500, 800), 2 => *rng.pick(&[4u64, 8, 16, 20, 32, 36, 513, 514, 763, 764, 767, 768]), _ => rng.below(40) } as usize;
         let mut v = rng.bytes(n);
@@ -201,7 +202,7 @@ pub fn c17(tier: &str, seed: u64) -> Report {
     let mut rng = Rng::new(seed);
     let key = key_short("pass");
     let mut done = 0;
-    let want = n_cases(tier, 150, 4000);
+    let want = n_cases(tier, 500, 8000);
     while done < want {
         let m = gen_message(&mut rng, &key);
         if refmsg::decode(&m).is_err() { continue; }
@@ -240,7 +241,7 @@ pub fn c17(tier: &str, seed: u64) -> Report {
         }
     }
     // header decoder vs "not non-STUN": random 20..24-byte buffers
-    for _ in 0..n_cases(tier, 2000, 50000) {
+    for _ in 0..n_cases(tier, 10000, 100000) {
         let n_ = 20 + rng.below(5) as usize; let mut b = rng.bytes(n_);
         if rng.coin() { b[4..8].copy_from_slice(&[0x21, 0x12, 0xa4, 0x42]); }
         if rng.coin() { b[0] &= 0x3f; }
@@ -259,12 +260,12 @@ pub fn c09(tier: &str, seed: u64) -> Report {
     let mut rng = Rng::new(seed);
     let key = key_short("pass");
     // Fingerprint::compute is CRC-32/ISO-HDLC
-    for n in 0..n_cases(tier, 300, 3000) as usize {
+    for n in 0..n_cases(tier, 600, 5000) as usize {
         let d = rng.bytes(n % 257);
         rep.case(true, &d);
         if Fingerprint::compute(&d) != crc32(&d).to_be_bytes() { rep.violate("C09:crc", format!("Fingerprint::compute differs from CRC-32/ISO-HDLC on {}", hex_short(&d)), format!("c09:crc:{}", hex(&d))); }
     }
-    for i in 0..n_cases(tier, 25, 400) {
+    for i in 0..n_cases(tier, 60, 600) {
         // builder-built message
         let mut b = Message::builder(MessageType::from_class_method(MessageClass::Request, 1), (rng.next() as u128).into());
         let sw = Software::new("bx").unwrap();
@@ -342,7 +343,7 @@ pub fn c16(tier: &str, seed: u64) -> Report {
     let creds = creds_short("pass");
     let fl = Flags { c01: false, c02: false, c04: false, c10: false, c16: true };
     let mut done = 0;
-    while done < n_cases(tier, 1500, 50000) {
+    while done < n_cases(tier, 6000, 100000) {
         // requests only; add boundary types
         let n = rng.below(5) as usize;
         let mut attrs = vec![];
@@ -367,7 +368,7 @@ pub fn c04(tier: &str, seed: u64) -> Report {
     let mut rep = Report::new("c04", "messages sealed by the real builder and by the reference HMAC (SHA-1, SHA-256 incl. truncated 16..32, both) x {short-term, long-term} credentials over ASCII and multi-byte UTF-8 strings x single-bit flips / byte substitutions up to and including the integrity attribute x alternative keys; verdicts vs independent HMAC-SHA1/SHA256/MD5.");
     let mut rng = Rng::new(seed);
     let strs = ["pass", "p", "", "пароль", "密碼🔑", "a:b", "with space", "0123456789012345678901234567890123456789012345678901234567890123456789"];
-    for i in 0..n_cases(tier, 60, 1500) {
+    for i in 0..n_cases(tier, 200, 3000) {
         let long = rng.coin();
         let (u, p, r) = (*rng.pick(&strs), *rng.pick(&strs), *rng.pick(&strs));
         let (creds, key) = if long { (creds_long(u, p, r), key_long(u, p, r)) } else { (creds_short(p), key_short(p)) };
